@@ -416,12 +416,7 @@ def finding_shapes(tree):
     """set of known-finding keys whose tree shape occurs in a CPython tree"""
     keys = set()
     for n in ast.walk(tree):
-        if isinstance(n, ast.Dict):
-            for k, v in zip(n.keys, n.values):
-                if k is None and (isinstance(v, (ast.BoolOp, ast.Compare, ast.IfExp, ast.Lambda)) or
-                                  isinstance(v, ast.UnaryOp) and isinstance(v.op, ast.Not)):
-                    keys.add("dict-unpack-operand-below-bitor")
-        elif isinstance(n, ast.JoinedStr):
+        if isinstance(n, ast.JoinedStr):
             if fstring_escape_shape(n):
                 keys.add("fstring-escape-inside-replacement-field")
             if any(isinstance(v, ast.Constant) and getattr(v, "kind", None) == "u" for v in n.values):
@@ -551,8 +546,6 @@ def classify(req, impl_out, model_out, failure):
     if len(shapes) != 1:
         return None
     key = next(iter(shapes))
-    if key == "dict-unpack-operand-below-bitor":
-        return key if verdict == "000" and "{**" in text.replace(", **", "{**") else None
     if key == "fstring-escape-inside-replacement-field":
         # rejected (backslash outside a quoted run of the field) or read back with doubled backslashes
         return key if verdict in ("000", "100") else None
@@ -690,12 +683,33 @@ x[a:b, c:d:e]
 (a for a in b for c in d if e)
 f'{x}{y!s}{z!a:>10}'
 f'{{}}'
+f"""{'''x'''}"""
+f'{x:a\\nb}'
+f'{x:\\x41{y}\\t}'
+rf'{x:\\n}'
+f'{x:\\{y}}'
+'' f'{x}'
+f'' 'a' f'{y}'
+f'{x}' ''
+'' f''
+f'{x =  }'
+f'{x=	}'
+f'{x=!r}'
+f'{x=:>5}'
+f'{x = !s:>{w}}'
 f'a{{b}}{c}'
 f'{ {1: 2} }'
 f'{a!r}'
 f"{'a' if b else 'c'}"
 f'{x:{y}.{z}}'
 await f(x)
+{**(a or b)}
+{**(a and b)}
+{**(not a)}
+{**(a < b)}
+{**(a if b else c)}
+{**(lambda: a)}
+{1: 2, **(a or b)}
 {**a, **b}
 {**a | b}
 {**(a | b)}
@@ -799,9 +813,8 @@ f(k=a or b)
 """.strip("\n").split("\n")
 
 FINDING_PROBES = {
-    "dict-unpack-operand-below-bitor": ["{**(a or b)}", "{**(a and b)}", "{**(not a)}", "{**(a < b)}",
-                                        "{**(a if b else c)}", "{**(lambda: a)}", "{1: 2, **(a or b)}"],
     "fstring-escape-inside-replacement-field": ["f'''{d['a']}\"'''", "f'''{f\"{f'{x}'}\"}'''",
+                                                "f'''{\"\"\"a\"b\"\"\"}'''",
                                                 "f\"\"\"{'''\n'''}\"\"\""],
     "fstring-u-kind-dropped": ["u'a' f'{x}'"],
 }
@@ -812,8 +825,6 @@ def directed_requests(full):
     shapes are left to the probe stream"""
     out = []
     for sname, tmpl, kname, sample in table_pairs():
-        if sname == "dictUnpack" and kname in LOW_PREC_KINDS:
-            continue
         w, wo = triple_sources(sname, tmpl, kname, sample)
         for s in (w, wo):
             t = py_tree(s)
